@@ -44,7 +44,7 @@ Definition bp_funds (inp : list Z) : list Z :=
   Z.of_nat (List.length alts) ::
   flat_map (fun fc : bool * cnd Z => (if fst fc then 1 else 0) :: bits nv (snd fc)) alts.
 
-(* [nd; valid...; nv; dst table...; pathmask...; unk] -> [-1] (whole state halts) | [n; (target; bits...)...] *)
+(* [nd; valid...; nv; dst table...; pathmask...; unk] -> [-1] (whole state halts) | [n; (target; bits...)...; 0 | 1; bits of the halting branch...] *)
 Definition bp_jump (inp : list Z) : list Z :=
   let '(nd, l) := pop1 inp in let '(valid, l) := popn nd l in
   let '(nv, l) := pop1 l in let '(dst, l) := popn nv l in
@@ -52,7 +52,11 @@ Definition bp_jump (inp : list Z) : list Z :=
   let '(unk, _) := pop1 l in
   match jump_alternatives Z (oracle nv mask unk) valid (table_fn dst) with
   | None => [-1]
-  | Some alts => Z.of_nat (List.length alts) :: flat_map (fun tc : Z * cnd Z => fst tc :: bits nv (snd tc)) alts
+  | Some alts => Z.of_nat (List.length alts) :: flat_map (fun tc : Z * cnd Z => fst tc :: bits nv (snd tc)) alts ++
+                 match jump_invalid_alternative Z (oracle nv mask unk) valid (table_fn dst) with
+                 | Some c => 1 :: bits nv c
+                 | None => [0]
+                 end
   end.
 
 (* [nv; cond table (0/1)...; pathmask...; unk] -> [n; (fails; bits...)...] *)
